@@ -135,6 +135,33 @@ M("c12-drop-range-check", "C12", "json_pointer.c",
 M("c12-benign-digit-test", "C12", "json_pointer.c",
   "\tif (path[0] == '0')\n\t{", "\tif (!(path[0] != '0'))\n\t{", expect="silent")
 
+# ---- C17 -------------------------------------------------------------------------------------
+M("c17-pop-skips-second", "C17", "json_visit.c",
+  "\t\t\tuserret = _json_c_visit(child, jso, NULL, &ii, userfunc, userarg);\n\t\t\tif (userret == JSON_C_VISIT_RETURN_POP)\n\t\t\t\tbreak;",
+  "\t\t\tuserret = _json_c_visit(child, jso, NULL, &ii, userfunc, userarg);\n\t\t\tif (userret == JSON_C_VISIT_RETURN_POP)\n\t\t\t\treturn JSON_C_VISIT_RETURN_CONTINUE;",
+  needle="array node")
+M("c17-skip-stops-siblings", "C17", "json_visit.c",
+  "\t\t\tuserret = _json_c_visit(child, jso, key, NULL, userfunc, userarg);\n\t\t\tif (userret == JSON_C_VISIT_RETURN_POP)\n\t\t\t\tbreak;",
+  "\t\t\tuserret = _json_c_visit(child, jso, key, NULL, userfunc, userarg);\n\t\t\tif (userret == JSON_C_VISIT_RETURN_POP || userret == JSON_C_VISIT_RETURN_SKIP)\n\t\t\t\tbreak;",
+  needle="object node")
+M("c17-second-flag-missing", "C17", "json_visit.c",
+  "\tuserret = userfunc(jso, JSON_C_VISIT_SECOND, parent_jso, jso_key, jso_index, userarg);",
+  "\tuserret = userfunc(jso, 0, parent_jso, jso_key, jso_index, userarg);", needle="")
+M("c17-stop-maps-error", "C17", "json_visit.c",
+  "\tcase JSON_C_VISIT_RETURN_POP:\n\tcase JSON_C_VISIT_RETURN_STOP: return 0;", "\tcase JSON_C_VISIT_RETURN_POP: return 0;", needle="STOP")
+M("c17-array-from-one", "C17", "json_visit.c",
+  "\t\tfor (ii = 0; ii < array_len; ii++)", "\t\tfor (ii = 1; ii < array_len; ii++)", needle="array")
+M("c17-wrong-parent", "C17", "json_visit.c",
+  "userret = _json_c_visit(child, jso, key, NULL, userfunc, userarg);", "userret = _json_c_visit(child, parent_jso, key, NULL, userfunc, userarg);",
+  needle="parent")
+M("c17-other-code-continues", "C17", "json_visit.c",
+  "\tdefault:\n\t\tfprintf(stderr, \"ERROR: invalid return value from json_c_visit userfunc: %d\\n\",\n\t\t        userret);\n\t\treturn JSON_C_VISIT_RETURN_ERROR;\n\t}\n\n\tswitch (json_object_get_type(jso))",
+  "\tdefault:\n\t\tbreak;\n\t}\n\n\tswitch (json_object_get_type(jso))", needle="")
+M("c17-benign-if-chain", "C17", "json_visit.c",
+  "\tcase JSON_C_VISIT_RETURN_CONTINUE:\n\tcase JSON_C_VISIT_RETURN_SKIP:\n\tcase JSON_C_VISIT_RETURN_POP:\n\tcase JSON_C_VISIT_RETURN_STOP: return 0;\n\tdefault: return JSON_C_VISIT_RETURN_ERROR;\n\t}",
+  "\tdefault: break;\n\t}\n\tif (ret == JSON_C_VISIT_RETURN_CONTINUE || ret == JSON_C_VISIT_RETURN_SKIP)\n\t\treturn 0;\n\tif (ret == JSON_C_VISIT_RETURN_POP || ret == JSON_C_VISIT_RETURN_STOP)\n\t\treturn 0;\n\treturn JSON_C_VISIT_RETURN_ERROR;",
+  expect="silent")
+
 
 def sh(cmd, **kw):
     return subprocess.run(cmd, shell=isinstance(cmd, str), stdout=subprocess.PIPE, stderr=subprocess.STDOUT, text=True, **kw)
